@@ -113,4 +113,44 @@ theorem fvMinusEqualCZ_close (cz : Bool) (sp x : List Nat) (fv : FV) (b : BF) (h
     rw [← hex]
     exact dropIfZero_close cz sp x pre post new
 
+/-! ## `toIndex(space, PartialFactors)` = flat index of the zero-filled expansion `toFactors(F, pf)` -/
+
+theorem toIndex_expand_nil : ∀ (ds : List Nat) (i : Nat) (vs : List Nat), toIndex ds (expandFrom i ds [] vs) = 0
+  | [], _, _ => by simp [toIndex]
+  | d :: ds, i, vs => by
+    simp only [expandFrom, toIndex]
+    rw [toIndex_expand_nil ds (i+1) []]; simp
+
+theorem toIndex_expand_nil' : ∀ (ds : List Nat) (i : Nat) (ks : List Nat), toIndex ds (expandFrom i ds ks []) = 0
+  | [], _, _ => by simp [toIndex]
+  | d :: ds, i, [] => toIndex_expand_nil (d :: ds) i []
+  | d :: ds, i, k :: ks => by
+    simp only [expandFrom, toIndex]
+    rw [toIndex_expand_nil ds (i+1) []]; simp
+
+/-- the early-exit loop of `toIndex(const Factors & space, const PartialFactors & f)` -/
+theorem toIndexPFLoop_eq : ∀ (ds : List Nat) (i : Nat) (ks vs : List Nat) (r m : Nat),
+    toIndexPFLoop i ds ks vs r m = r + m * toIndex ds (expandFrom i ds ks vs)
+  | [], i, ks, vs, r, m => by simp [toIndexPFLoop, toIndex]
+  | d :: ds, i, [], vs, r, m => by
+    rw [toIndex_expand_nil]; simp [toIndexPFLoop]
+  | d :: ds, i, k :: ks, [], r, m => by
+    rw [toIndex_expand_nil']; simp [toIndexPFLoop]
+  | d :: ds, i, k :: ks, v :: vs, r, m => by
+    simp only [toIndexPFLoop, expandFrom]
+    by_cases h : i = k
+    · simp only [h, if_true, toIndex]
+      rw [toIndexPFLoop_eq ds (k+1) ks vs]
+      ring
+    · simp only [h, if_false, toIndex]
+      rw [toIndexPFLoop_eq ds (i+1) (k :: ks) (v :: vs)]
+      ring
+
+/-- **toIndex(space, pf)** is the flat index of `toFactors(|space|, pf)` (the assignment that is 0 outside the keys) -/
+theorem toIndexPF_eq (sp keys vals : List Nat) : toIndexPF sp keys vals = toIndex sp (expandFrom 0 sp keys vals) := by
+  unfold toIndexPF
+  rw [toIndexPFLoop_eq]; simp
+
+example : toIndexPF [2, 3, 2] [1, 2] [2, 1] = 10 ∧ expandFrom 0 [2, 3, 2] [1, 2] [2, 1] = [0, 2, 1] := by decide
+
 end AITB.Factored
